@@ -56,6 +56,9 @@ def shards(tier):
     for kind in ("f8", "str", "i8", "D"):
         for length in ([17, 129, 1025] if tier == "quick" else [17, 129, 1025, 65537]):
             out.append({"part": "long", "kind": kind, "length": length})
+    # width ladder: whole rows means ALL columns, also when there are many
+    for kind in ("f8", "str"):
+        out.append({"part": "wide", "kind": kind, "ncol": 40 if tier == "quick" else 300})
     if tier == "quick":
         na = len(V.alphabet("i8", "key"))
         for j in range(na + na * na):  # one shard per pattern: these frames are expensive to read back cell by cell
@@ -337,7 +340,29 @@ def long_ops(n):
     return ops
 
 
+WIDE_KINDS = ["i8", "str", "f8", "D", "b1", "U", "u1", "us"]
+
+
+def wide_payload(ncol, rows):
+    cols = []
+    for j in range(ncol):
+        kind = WIDE_KINDS[j % len(WIDE_KINDS)]
+        alpha = V.alphabet(kind, "quick")
+        cols.append([f"w{j:03d}", kind, [alpha[(i * 3 + j) % len(alpha)] for i in range(rows)]])
+    return cols
+
+
 def run_shard(shard, rec):
+    if shard["part"] == "wide":
+        alpha = V.alphabet(shard["kind"], "key")
+        for toks in V.seqs(alpha, 0, 3):
+            m = len(toks)
+            cols = [["k", shard["kind"], list(toks)]] + payload_cols(m) + wide_payload(shard["ncol"], m)
+            ops = long_ops(m) if m else [{"op": "head", "n": 1}, {"op": "unique", "cols": ["k"]}]
+            ops += [{"op": "drop_na", "cols": ["k", "w001", "w002"]}, {"op": "unique", "cols": ["k", "w000"]},
+                    {"op": "slice", "rows": None, "cols": [len(cols) - 1, 0, 1]}, {"op": "slice_off", "rows": None, "cols": [0, len(cols) - 1]}]
+            check_case({"cols": cols, "ops": ops}, rec)
+        return
     if shard["part"] == "long":
         kind, length = shard["kind"], shard["length"]
         alpha = V.alphabet(kind, "key")
